@@ -676,3 +676,36 @@ func (o *Ops) authWrite(afid *go9p.SrvFid, offset uint64, data []byte) (int, err
 	o.Log.Add(Event{Kind: "op", Conn: connOf(o, afid), Op: "AuthWrite", Afid: t, User: uid(afid), Args: fmt.Sprintf("offset=%d count=%d data=%s", offset, len(data), hash(data))})
 	return len(data), nil
 }
+
+// ---- SrvReqProcessOps: an implementation that takes over request processing and, as documented, calls
+// req.Process() from SrvReqProcess and req.PostProcess() from SrvReqRespond.
+
+func (o *Ops) srvReqProcess(req *go9p.SrvReq) {
+	o.Log.Add(Event{Kind: "procop", Conn: o.ConnID(req.Conn), Tag: req.Tc.Tag, Op: "SrvReqProcess"})
+	req.Process()
+}
+
+func (o *Ops) srvReqRespond(req *go9p.SrvReq) {
+	o.Log.Add(Event{Kind: "procop", Conn: o.ConnID(req.Conn), Tag: req.Tc.Tag, Op: "SrvReqRespond"})
+	req.PostProcess()
+}
+
+type WithProc struct{ *Ops }
+
+func (o WithProc) SrvReqProcess(r *go9p.SrvReq) { o.Ops.srvReqProcess(r) }
+func (o WithProc) SrvReqRespond(r *go9p.SrvReq) { o.Ops.srvReqRespond(r) }
+
+type WithProcFlush struct{ WithFlush }
+
+func (o WithProcFlush) SrvReqProcess(r *go9p.SrvReq) { o.Ops.srvReqProcess(r) }
+func (o WithProcFlush) SrvReqRespond(r *go9p.SrvReq) { o.Ops.srvReqRespond(r) }
+
+type WithProcAuth struct{ WithAuth }
+
+func (o WithProcAuth) SrvReqProcess(r *go9p.SrvReq) { o.Ops.srvReqProcess(r) }
+func (o WithProcAuth) SrvReqRespond(r *go9p.SrvReq) { o.Ops.srvReqRespond(r) }
+
+type WithProcAuthFlush struct{ WithAuthFlush }
+
+func (o WithProcAuthFlush) SrvReqProcess(r *go9p.SrvReq) { o.Ops.srvReqProcess(r) }
+func (o WithProcAuthFlush) SrvReqRespond(r *go9p.SrvReq) { o.Ops.srvReqRespond(r) }
